@@ -640,37 +640,39 @@ func c13R5(c *Ctx) {
 				gw = kv.Value
 			}
 		}
-		o := identObj(info, gw)
-		ok := false
-		if o != nil {
-			ds := varDefs(eniGen, o)
-			var def, strip string
-			for _, d := range ds {
-				if d.tok == token.DEFINE && d.rhs != nil {
-					def = exprString(d.rhs)
-				} else if d.rhs != nil {
-					strip = exprString(d.rhs)
-					// the override is under cfg.StripVlan
-					e := NewFactEngine(p, eniGen)
-					f, err := e.ParseReq(cfg+".StripVlan", d.node.Pos())
-					if err == nil {
-						if okF, _, _ := e.FactsAt(d.node, f); !okF {
-							strip = "(not under StripVlan) " + strip
-						}
-					}
+		_ = info
+		key := fmt.Sprintf("ENI IPv%d default route: ENI gateway under VLAN stripping, pod gateway otherwise", r.fam)
+		if gw == nil {
+			c.Bad("C13.R5", key, p.Pos(r.lit), eniGen.Key(), "Gw: <gateway>", "the route has no gateway")
+			continue
+		}
+		// as a fact about the value at the literal, however it got there: a local with an override, a
+		// selected set, a helper
+		fam := fmt.Sprintf("IPv%d", r.fam)
+		g := exprString(gw)
+		var at ast.Node = r.lit
+		for _, nd := range pathTo(eniGen.Decl.Body, r.lit) {
+			if st, ok := nd.(ast.Stmt); ok {
+				if _, isBlock := st.(*ast.BlockStmt); !isBlock {
+					at = st
 				}
 			}
-			fam := fmt.Sprintf("IPv%d", r.fam)
-			ok = def == cfg+".GatewayIP."+fam && strip == cfg+".ENIGatewayIP."+fam
 		}
-		c.Check(ok, "C13.R5", fmt.Sprintf("ENI IPv%d default route: ENI gateway under VLAN stripping, pod gateway otherwise", r.fam), p.Pos(r.lit), eniGen.Key(), "gw := cfg.GatewayIP.IPvX; if cfg.StripVlan { gw = cfg.ENIGatewayIP.IPvX }", "gateway provenance not of that form")
-		// and the route is table-qualified with the parameter
-		for _, el := range r.lit.Elts {
-			if kv, isKV := el.(*ast.KeyValueExpr); isKV && exprString(kv.Key) == "Table" {
-				tp := eniGen.Decl.Type.Params.List[2].Names[0]
-				c.Check(identObj(info, kv.Value) == info.Defs[tp], "C13.R5", fmt.Sprintf("ENI IPv%d default route lives in the per-ENI table", r.fam), p.Pos(kv), eniGen.Key(), "Table: <table parameter>", exprString(kv.Value))
+		c.RequireF("C13.R5", key, eniGen, at, "("+cfg+".StripVlan && Gw is "+cfg+".ENIGatewayIP."+fam+") || (!"+cfg+".StripVlan && Gw is "+cfg+".GatewayIP."+fam+")", func(e *FactEngine) (*Formula, error) {
+			strip, err := e.Expr(cfg+".StripVlan", at.Pos())
+			if err != nil {
+				return nil, err
 			}
-		}
+			eniGw, err := e.PathEq(g, cfg+".ENIGatewayIP."+fam, at.Pos())
+			if err != nil {
+				return nil, err
+			}
+			podGw, err := e.PathEq(g, cfg+".GatewayIP."+fam, at.Pos())
+			if err != nil {
+				return nil, err
+			}
+			return mkOr(mkAnd(strip, eniGw), mkAnd(mkNot(strip), podGw)), nil
+		})
 	}
 	c.Floor("C13.R5", "per-ENI default routes", 2, m)
 	// host-peer generator: from-pod rule uses the table parameter, to-pod rule the main table
@@ -911,7 +913,30 @@ func c13R10(c *Ctx) {
 		c.Undec("C13.R10", "FoundRoutes: filter mask variable", p.Pos(fn.Decl), fn.Key(), "RouteListFiltered(family, &find, mask)", "not found")
 		return
 	}
-	defs := varDefs(fn, mask)
+	// the variable the flags are collected in: the argument itself, or what it is a plain copy of
+	// (a temporary that receives the finished mask)
+	for hop := 0; hop < 3; hop++ {
+		var valued []varDef
+		for _, d := range varDefs(fn, mask) {
+			if d.rhs != nil {
+				valued = append(valued, d)
+			}
+		}
+		if len(valued) != 1 {
+			break
+		}
+		src, _ := identObj(info, valued[0].rhs).(*types.Var)
+		if src == nil || src.IsField() || src.Parent() == nil || src.Parent() == src.Pkg().Scope() {
+			break
+		}
+		mask = src
+	}
+	var defs []varDef
+	for _, d := range varDefs(fn, mask) {
+		if d.rhs != nil || d.tok == token.OR_ASSIGN {
+			defs = append(defs, d)
+		}
+	}
 	sort.Slice(defs, func(i, j int) bool { return defs[i].node.Pos() < defs[j].node.Pos() })
 	oif := false
 	for i, d := range defs {
